@@ -533,9 +533,12 @@ func (e *Engine) propOfEntry() string {
 func (e *Engine) recordCross(id string, pc []*Term, extra *Term, verdict string) {
 	n := e.rep.crossSeen[id]
 	e.rep.crossSeen[id] = n + 1
-	limit := 3
+	// quick: one query per obligation id, first shard only; thorough: three
+	limit := 1
 	if e.tier > 0 {
-		limit = 10
+		limit = 3
+	} else if e.shardI != 0 {
+		limit = 0
 	}
 	if n >= limit {
 		return
